@@ -156,7 +156,7 @@ PROPS = {
     },
     "C16": {
         "modules": ["SxVerif.Props.C16"],
-        "components": ["exitdelay", "e2edelay"],
+        "components": ["exitdelay", "e2edelay", "recv"],
         "trusted_base": [
             "modelled, not verified: time as a logical clock (`tick`), `time.After(d)` as a timer whose receive is enabled once clock >= creation time + d; Go channel / select / context semantics as in Model/Engine.lean (see C08)",
             "the packet receiver is abstracted to an external producer that reads the next arrived frame only while the derived ctx is live and then calls Put (receiver loop polls ctx at the loop head; C03/C06/C20 own the frame side)",
